@@ -79,6 +79,8 @@ pub fn run(ctx: &Ctx) -> i32 {
         f.tail = vec![1, 2, 3, 4, 5];
         add("b1-trailing".into(), &f);
     }
+    // a file whose chunks are all larger than 64 KiB (quick: structured offsets only, see below)
+    add("big".into(), &gen::big());
     // corpus
     let dir = std::path::Path::new("/repo/tests/data");
     let mut names: Vec<_> = std::fs::read_dir(dir).map(|d| d.filter_map(|e| e.ok()).map(|e| e.path()).filter(|p| p.extension().map_or(false, |x| x == "aseprite")).collect()).unwrap_or_else(|_| Vec::new());
@@ -111,10 +113,17 @@ pub fn run(ctx: &Ctx) -> i32 {
             return 2;
         }
     }
-    let total: usize = files.iter().map(|(_, _, e, _)| *e).sum();
-    ctx.family("prefixes", total as u64, &format!("every strict prefix bytes[..k], 0 <= k < end of last frame, of {} files: b1..b4, D1 in three formats, one file per chunk kind with that chunk last, b1 with trailing bytes / both count styles / a tail, and the corpus files up to 8 KB{}", files.len(), if thorough { " plus one 525 KB corpus file at every offset" } else { "" }), true);
+    let total: usize = files.iter().map(|(n, _, e, sp)| if n == "big" && !thorough { (0..*e).filter(|k| k % 257 == 0 || k % 4096 < 24 || k % 4096 >= 4072 || sp.iter().any(|(a, b)| k.abs_diff(*a) < 24 || k.abs_diff(*b) < 24)).count() } else { *e }).sum();
+    ctx.family("prefixes", total as u64, &format!("every strict prefix bytes[..k], 0 <= k < end of last frame, of {} files: b1..b4, D1 in three formats, one file per chunk kind with that chunk last, b1 with trailing bytes / both count styles / a tail, and the corpus files up to 8 KB, plus `big` (every chunk > 64 KiB; quick: cuts near chunk / 4 KiB boundaries and every 257th offset, thorough: every offset){}", files.len(), if thorough { " plus one 525 KB corpus file at every offset" } else { "" }), true);
     for (name, bytes, end, spans) in &files {
-        (0..*end).into_par_iter().for_each(|k| {
+        // `big` (400 KB) in the quick tier: every cut within 24 bytes of a chunk boundary, of a
+        // 4 KiB / 64 KiB multiple, and every 257th offset; all offsets in the thorough tier
+        let cuts: Vec<usize> = if name == "big" && !thorough {
+            (0..*end).filter(|k| k % 257 == 0 || k % 4096 < 24 || k % 4096 >= 4072 || spans.iter().any(|(a, b)| k.abs_diff(*a) < 24 || k.abs_diff(*b) < 24)).collect()
+        } else {
+            (0..*end).collect()
+        };
+        cuts.into_par_iter().for_each(|k| {
             let case = || format!("{}[..{}]", name, k);
             expect_err(ctx, "prefixes", &case, &bytes[..k], "the input is a strict prefix of a valid file ending before the end of its last frame");
             // coverage: which structural region the cut falls in (file header, a frame header, or the n-th chunk)
